@@ -59,10 +59,19 @@ func (env *Env) lookupPkg(name string) *types.Package {
 	if tp.Name() == name {
 		return tp
 	}
+	var found *types.Package
 	for _, imp := range tp.Imports() {
 		if imp.Name() == name {
-			return imp
+			if strings.HasPrefix(imp.Path(), "rcproxy") {
+				return imp // project packages win over standard-library packages of the same name
+			}
+			if found == nil {
+				found = imp
+			}
 		}
+	}
+	if found != nil {
+		return found
 	}
 	// any loaded package by name
 	for _, p := range env.vc.eng.prog.AllPackages() {
@@ -530,7 +539,7 @@ func (vc *VC) evalTerm(env *Env, e CExpr) Term {
 			et := x.T.Underlying().(*types.Slice).Elem()
 			key := vc.memKey(et)
 			i = vc.coerceTo(i, SInt)
-			return Term{S: app(vc.elemFn(vc.sortOf(et)), vc.heapGet(env.cur, key).S, x.S, i.S), Sort: vc.sortOf(et), T: et}
+			return Term{S: app(vc.elemFn(vc.sortOf(et)), sel(vc.heapGet(env.cur, key).S, "(sl.base "+x.S+")"), x.S, i.S), Sort: vc.sortOf(et), T: et}
 		case x.Sort == SStr:
 			i = vc.coerceTo(i, SInt)
 			return Term{S: "(s_at " + x.S + " " + i.S + ")", Sort: bvSort(8), T: types.Typ[types.Uint8]}
@@ -800,6 +809,25 @@ func (vc *VC) evalCall(env *Env, t CCall) Term {
 			ref = "(sl.base " + x.S + ")"
 		}
 		return tBool(fmt.Sprintf("(and (>= %s %s) (= (refkind %s) 0) (= (rootof %s) %s))", ref, oa.S, ref, ref, ref))
+	case "pre":
+		// pre(e): e evaluated in the state in which the current loop was entered
+		li := vc.curLoop(env)
+		n := *env
+		n.cur = li.preSt
+		return vc.evalTerm(&n, t.Args[0])
+	case "newinloop":
+		// newinloop(x): x was allocated after the current loop was entered
+		li := vc.curLoop(env)
+		x := vc.evalTerm(env, t.Args[0])
+		ref := x.S
+		if x.Sort == SSlice {
+			ref = "(sl.base " + x.S + ")"
+		}
+		return tBool(fmt.Sprintf("(and (>= %s %s) (= (refkind %s) 0) (= (rootof %s) %s))", ref, li.allocPre, ref, ref, ref))
+	case "wasalloc":
+		// wasalloc(r): r (or the object it is embedded in) existed when the function was entered
+		x := vc.evalTerm(env, t.Args[0])
+		return tBool(fmt.Sprintf("(< (rootof %s) %s)", x.S, q("H0 ALLOC")))
 	case "allocated":
 		x := vc.evalTerm(env, t.Args[0])
 		oa := vc.heapGet(env.cur, vc.allocKey())
@@ -809,7 +837,7 @@ func (vc *VC) evalCall(env *Env, t CCall) Term {
 		x := vc.evalTerm(env, t.Args[0])
 		key := vc.memKey(types.Typ[types.Uint8])
 		mem := vc.heapGet(env.cur, key)
-		return Term{S: fmt.Sprintf("(s_of %s (sl.base %s) (sl.off %s) (sl.len %s))", mem.S, x.S, x.S, x.S), Sort: SStr, T: types.Typ[types.String]}
+		return Term{S: fmt.Sprintf("(s_of (select %s (sl.base %s)) (sl.off %s) (sl.len %s))", mem.S, x.S, x.S, x.S), Sort: SStr, T: types.Typ[types.String]}
 	case "bytes_eq":
 		// bytes_eq(a, b): same length and contents (slices, current state)
 		a := vc.evalTerm(env, t.Args[0])
@@ -835,6 +863,12 @@ func (vc *VC) evalCall(env *Env, t CCall) Term {
 		h := vc.heapGet(env.cur, key)
 		k = vc.coerceTo(k, strings.TrimPrefix(strings.Split(h.Sort, " ")[1], ""))
 		return tBool(sel(h.S, k.S))
+	case "rawbyte":
+		// rawbyte(r, j): byte j of backing array r in the current byte memory
+		r := vc.evalTerm(env, t.Args[0])
+		j := vc.evalTerm(env, t.Args[1])
+		key := vc.memKey(types.Typ[types.Uint8])
+		return Term{S: sel(sel(vc.heapGet(env.cur, key).S, r.S), j.S), Sort: bvSort(8), T: types.Typ[types.Uint8]}
 	case "dyntype":
 		x := vc.evalTerm(env, t.Args[0])
 		return tInt("(dyntype " + x.S + ")")
@@ -859,7 +893,11 @@ func (vc *VC) evalCall(env *Env, t CCall) Term {
 	}
 	// spec function
 	if sig, ok := vc.eng.specSigs[t.Fn]; ok {
-		vc.uses[sig.File] = true
+		if g, isTable := vc.eng.tableGlobals[sig.File]; isTable {
+			vc.ensureMapTable(vc.eng.mapTableFor(g, vc.eng.tableNames[g]))
+		} else {
+			vc.uses[sig.File] = true
+		}
 		if len(sig.Args) != len(t.Args) {
 			vc.unsup("spec function %s expects %d args", t.Fn, len(sig.Args))
 		}
@@ -871,16 +909,25 @@ func (vc *VC) evalCall(env *Env, t CCall) Term {
 		}
 		return Term{S: app(t.Fn, args...), Sort: sig.Res}
 	}
-	// heap-parameterised spec function: name$ takes the current memory for bytes as first arg
+	// heap-parameterised spec function: name$ takes as first argument the current contents of the
+	// backing array of its first slice argument
 	if sig, ok := vc.eng.specSigs[t.Fn+"$"]; ok {
 		vc.uses[sig.File] = true
 		key := vc.memKey(types.Typ[types.Uint8])
-		args := []string{vc.heapGet(env.cur, key).S}
+		var args []string
+		base := ""
 		for i, a := range t.Args {
 			x := vc.evalTerm(env, a)
 			x = vc.coerceTo(x, sig.Args[i+1])
+			if base == "" && x.Sort == SSlice {
+				base = "(sl.base " + x.S + ")"
+			}
 			args = append(args, x.S)
 		}
+		if base == "" {
+			vc.unsup("spec function %s needs a slice argument", t.Fn)
+		}
+		args = append([]string{sel(vc.heapGet(env.cur, key).S, base)}, args...)
 		return Term{S: app(t.Fn+"$", args...), Sort: sig.Res}
 	}
 	vc.unsup("unknown function %s in contract", t.Fn)
@@ -914,15 +961,22 @@ func (vc *VC) seqEq(env *Env, a, b Term) string {
 		case SStr:
 			return "(s_len " + x.S + ")", "(s_at " + x.S + " " + i + ")"
 		case SSlice:
-			key := vc.memKey(x.T.Underlying().(*types.Slice).Elem())
-			return "(sl.len " + x.S + ")", sel(sel(vc.heapGet(env.cur, key).S, "(sl.base "+x.S+")"), "(+ (sl.off "+x.S+") "+i+")")
+			et := x.T.Underlying().(*types.Slice).Elem()
+			key := vc.memKey(et)
+			return "(sl.len " + x.S + ")", app(vc.elemFn(vc.sortOf(et)), sel(vc.heapGet(env.cur, key).S, "(sl.base "+x.S+")"), x.S, i)
 		}
 		vc.unsup("bytes_eq on sort %s", x.Sort)
 		return "", ""
 	}
+	if strings.Contains(a.S, "(ite ") {
+		a.S = vc.define("sq", a.Sort, a.S)
+	}
+	if strings.Contains(b.S, "(ite ") {
+		b.S = vc.define("sq", b.Sort, b.S)
+	}
 	la, ea := at(a)
 	lb, eb := at(b)
-	return fmt.Sprintf("(and (= %s %s) (forall ((%s Int)) (! (=> (and (<= 0 %s) (< %s %s)) (= %s %s)) :pattern (%s))))", la, lb, i, i, i, la, ea, eb, ea)
+	return fmt.Sprintf("(and (= %s %s) (forall ((%s Int)) (! (=> (and (<= 0 %s) (< %s %s)) (= %s %s)) :pattern (%s) :pattern (%s))))", la, lb, i, i, i, la, ea, eb, ea, eb)
 }
 
 var _ = constant.MakeBool
@@ -991,4 +1045,15 @@ func substCExpr(e CExpr, sub map[string]CExpr) CExpr {
 		return CQuant{t.Forall, t.Vars, substCExpr(t.Body, inner)}
 	}
 	return e
+}
+
+func (vc *VC) curLoop(env *Env) *loopInfo {
+	if env.fr == nil || env.fr.curLoopHdr == nil {
+		vc.unsup("pre()/newinloop() used outside a loop clause")
+	}
+	li := env.fr.loops[env.fr.curLoopHdr]
+	if li == nil || li.preSt == nil {
+		vc.unsup("pre()/newinloop(): loop state not available")
+	}
+	return li
 }
